@@ -283,6 +283,7 @@ let handle toks =
   | ["u_tskill"; src; tid; sk; lvl] ->
     let u = ub (int_of_string src) in
     u.types <- upd (zi tid) (fun t -> { t with t_skills = t.t_skills @ [(zi sk, zi lvl)] }) u.types; "ok"
+  | ["u_tability"; _; _; _] -> "ok"   (* fighter abilities are switched by no statistics history *)
   | ["u_buff"; src; bid; flt; extra; tgt; op; agg] ->
     let u = ub (int_of_string src) in
     let t = { b_filter = zi flt; b_extra = oz extra; b_tgt_attr = zi tgt; b_op = zi op; b_aggmode = zi agg } in
